@@ -776,3 +776,8 @@ if __name__ == "__main__":
         print("C11 (T4 stage alone): %s" % ("FAIL" if c.violations else "ok"))
         sys.exit(1 if c.violations else 0)
     print(__doc__)
+
+
+def run(ctx, _inner=run):     # + T5-race (lib/racetie.py): data-race freedom, the assumption under every interleaving model; also re-runs its replay files
+    from lib import racetie
+    return racetie.stage(ctx, _inner, ["server", "server/session", "server/session/store"])
